@@ -18,6 +18,7 @@ claims = {
  "C03": ("per-transition frame obligations: no transition's closure reads or writes a mutable package-level variable (the only process memory a later transition could observe)", "DESIGN.md 6 C03"),
  "C09": ("signature/permission clauses from the statement on Store, Renew (owner only), Terminate and UpdateMeta (owner or read-write grantee), frame of all other models, trusted contract for verifySignature (sao-did)", "DESIGN.md 6 C09"),
  "C15": ("functional contracts of the selection chain: node filter (eligibility, stored, pairwise distinct via key order), RandomIndex (range, distinct, terminates), GetNextSuperNodes, RandomSP (count, eligible, not ignored, distinct); SelectNodes assumed with a bounded stand-in", "DESIGN.md 6 C15"),
+ "C17": ("clauses from the statement on the three DID handlers: Binding (account not bound before, bound to the proof's DID afterwards, listed exactly once, proof signed by the account's key and timestamp within the window, creator already bound once the DID exists, first cosmos account becomes the payment address; the clause that the signed text names the DID and time is a recorded finding), Update (creator bound; the payment-address account is never unbound: call-site assertion at every RemoveDid), UpdatePaymentAddress (sid: the new address is an account bound to that DID on this chain; key: set once, by the address itself, one key DID per address); signature verification and CAIP-10 parsing are assumed contracts", "DESIGN.md 6 C17"),
  "C18": ("per module: footprint obligation (every KV prefix the module writes is read by ExportGenesis and written by InitGenesis, decided over the SSA of the module), GetAll* returns every stored record exactly as stored (iterator contract, all iterations), InitGenesis stores every listed record under its own key, ExportGenesis = the stores; Validate ==> importable (pool present). Composition Init(Export(s)) == s and equal continuation are meta-arguments; bank/auth/staking genesis and app/export.go are out of scope", "DESIGN.md 6 C18"),
  "C19": ("clauses from the statement on ReportFaults/RecoverFaults: success only for a registered node that is a fishman (or the accused provider itself for recovery); a report is stored only for an existing, unexpired shard the accused holds for the named order and model (call-site assertion at SetFault, all iterations); frame obligations: ReportFaults writes fault records only, RecoverFaults fault records, fishing rewards and the accused provider's own pledge record only, whose reward, debt and capacity pledge never grow nor go negative; DoPenalty touches no balance and no pledge", "DESIGN.md 6 C19"),
  "C20": ("Super ==> Req clauses on CheckDelegationShare, CheckNodeShare, AddVstorage (promotion), RemoveVstorage (demotion) and the staking hooks (promotion only with full status, pledge threshold and delegation share)", "DESIGN.md 6 C20"),
@@ -27,7 +28,6 @@ na = {
  "_C03": "not yet decided by the machinery in this commit (global-variable frame obligations not built)",
  "_C09": "not yet decided: the Store/Renew/Terminate/UpdataPermission handlers are not under contract yet",
  "_C15": "not yet decided: selection functions (RandomIndex, SelectNodes, GetNextSuperNodes, RandomSP) not under contract yet; SelectNodes/heapify write slice elements in place, which is outside the value-semantics subset of the engine",
- "C17": "not yet decided: did handlers not under contract yet",
 }
 src = subprocess.run(["git","-C","/repo","log","--format=%h %s"],capture_output=True,text=True).stdout.splitlines()
 hook_commits=[l.split()[0] for l in src if l.split(' ',1)[1].startswith('verif:')]
